@@ -647,7 +647,7 @@ def parse_results_tabulate(ctx) -> bool | None:
     ctx.ob("PARSE.tabulated", "parser._parse", not bad, f"{n} (kind of parsed value, tz option) cases: " + ("; ".join(bad[:3]) if bad else
            "each rebuilt field by field as the pendulum value of its kind; a datetime in its own offset, else the tz option, else UTC"), m.loc(fn))
     if not bad:
-        ctx.established(("FUNNEL.parse", "LADDER.exhaustive"), "parser._parse", "PARSE.tabulated")
+        ctx.established(("FUNNEL.parse", "LADDER.exhaustive", "ATTRS.rust-to-py"), "parser._parse", "PARSE.tabulated")
     return not bad
 
 
